@@ -318,6 +318,12 @@ func gen(t *rapid.T) Case {
 			op = Op{O: "clear"}
 		case 10:
 			op = Op{O: "contains", Vs: vals(t, "probe", 0, 3)}
+			switch rapid.IntRange(0, 5).Draw(t, "many-probes") {
+			case 0: // far more arguments than a handful, with repeats
+				op.Vs = vals(t, "probe-many", 9, 30)
+			case 1: // the whole current contents (every argument present, duplicates as they come)
+				op.Vs = slices.Clone(m)
+			}
 		case 11: // bulk add: crosses the array list's growth thresholds
 			op = Op{O: "add", Vs: vals(t, "bulk", 8, 40)}
 		case 12: // run of removals at one index: crosses the shrink threshold
